@@ -17,7 +17,10 @@ Cases ==
   \cup { [b |-> "Parallelepiped", o |-> o, r |-> <<1, 1>>, ax |-> Zero3, n |-> 0, n2 |-> 0, vs |-> <<t[1], t[2], t[3]>>] : o \in Centres, t \in Trip }
 CaseCode(x) == Mix(MixV(MixV(Mix(Len(x.b), x.n * 7 + x.n2), x.o), x.ax), x.r[1] * 5 + x.r[2])
 CodeV(x) == IF "vs" \in DOMAIN x THEN MixV(MixV(CaseCode(x), x.vs[1]), x.vs[2]) + (IF Len(x.vs) = 3 THEN MixV(3, x.vs[3]) ELSE 0) ELSE CaseCode(x)
-Init == c \in { x \in Cases : NSHARD = 1 \/ (CodeV(x) + SEED) % NSHARD = 0 }
+\* axis-aligned unit boxes / unit parallelograms are always kept (integer coordinates such as -1 / -2 collide in CPython's hash)
+UnitAxes == { V3(1, 0, 0), V3(0, 1, 0), V3(0, 0, 1) }
+Special(x) == "vs" \in DOMAIN x /\ \A i \in DOMAIN x.vs : x.vs[i] \in UnitAxes
+Init == c \in { x \in Cases : NSHARD = 1 \/ Special(x) \/ (CodeV(x) + SEED) % NSHARD = 0 }
 Next == UNCHANGED c
 Spec == Init /\ [][Next]_vars
 
